@@ -119,3 +119,17 @@ Definition table_join_window_groups {V W} (jk : jkind) (tumble : Z -> Z -> Z -> 
            (size off : Z) (table : list (list (window * W))) (ps : list (list (Z * V)))
   : outcome (list (window * (option W * option (list V)))) :=
   cogroup window_eqb jk (Ok table) (sub_group_by_window tumble size off ps).
+
+(* keyed: events.group_by_key_and_window(size, off).join_<jk>(&table), table keyed by (K, Window) *)
+Definition key_window_groups_join_table {K V W} (keqb : K -> K -> bool) (jk : jkind)
+           (tumble : Z -> Z -> Z -> outcome window) (size off : Z)
+           (ps : list (list (K * (Z * V)))) (table : list (list ((K * window) * W)))
+  : outcome (list ((K * window) * (option (list V) * option W))) :=
+  cogroup (kw_eqb keqb) jk (sub_group_by_key_and_window keqb tumble size off ps) (Ok table).
+
+(* no grouping: events.key_by_window(size, off).join_<jk>(&table); the sub-plan is stateless, its
+   partitions are concatenated in order by `coalesce_left` *)
+Definition tagged_window_join_table {V W} (jk : jkind) (tumble : Z -> Z -> Z -> outcome window)
+           (size off : Z) (ps : list (list (Z * V))) (table : list (list (window * W)))
+  : outcome (list (window * (option V * option W))) :=
+  cogroup window_eqb jk (key_by_window_unkeyed tumble size off ps) (Ok table).
